@@ -48,6 +48,7 @@ KNOWN = {
     # ---- datatypes --------------------------------------------------------------------------
     "ScalarType._precision -> Symbol": "World.links",
     "ArrayType._precision -> Symbol": "World.links",
+    "ArrayType._intrinsic -> Symbol": "World.links (the DataTypeSymbol of an array of derived type, same object as _datatype)",
     "ArrayType._datatype -> DataType": "World.links / World.bounds",
     "ArrayType._datatype -> Symbol": "World.links (DataTypeSymbol)",
     "ArrayType._shape -> Node": "World.bounds",
@@ -60,6 +61,11 @@ KNOWN = {
 
 # holders of the PSyKAl layers (second family, real objects only).  Those marked with a finding id are
 # handed on by copy.copy and are the listed known findings; the others are re-built or immutable.
+# holders that exist only because of a defect (listed known finding); they vanish with the repair
+KNOWN_DEFECT = {
+    "Node._ast -> Node": "C15-loop-ast-self",
+}
+
 KNOWN_PSYKAL = {
     "Kern._arguments -> Arguments": "finding C15-psykal-shared-arguments (NodeRec.attr)",
     "LFRicLoop._kern -> Node": "finding C15-psykal-loop-kern-pointer",
@@ -104,14 +110,24 @@ def targets(value, depth=0):
     return out
 
 
+_owner_cache = {}
+
+
 def owner_name(obj, attr):
     """the most general class that could define the attribute: the class of KNOWN if there is one for this
     attribute among the bases of the object's class, else the class of the object itself"""
+    key = (type(obj), attr)
+    if key not in _owner_cache:
+        _owner_cache[key] = _owner_name(obj, attr)
+    return _owner_cache[key]
+
+
+def _owner_name(obj, attr):
     for cls in type(obj).__mro__:
         for key in KNOWN:
             if key.startswith(cls.__name__ + "." + attr + " "):
                 return cls.__name__
-        for key in KNOWN_PSYKAL:
+        for key in list(KNOWN_PSYKAL) + list(KNOWN_DEFECT):
             if key.startswith(cls.__name__ + "." + attr + " "):
                 return cls.__name__
     return type(obj).__name__
@@ -144,12 +160,13 @@ def scan(roots, acc=None, limit=200000):
 
 def unknown(holders, psykal=False):
     table = dict(KNOWN)
+    table.update(KNOWN_DEFECT)
     if psykal:
         table.update(KNOWN_PSYKAL)
     return sorted(h for h in holders if h not in table)
 
 
-def leaks(copy_root, own_syms, own_nodes, limit=200000):
+def leaks(copy_root, own_syms, own_nodes, limit=200000, skip=(), only=None):
     """-> None, or (path, object): an attribute path from the copy to a symbol of the original's copied
     scopes / a node of the original (subtree or declarations).  Every attribute is followed."""
     own_syms = {id(s): s for s in own_syms}
@@ -161,12 +178,14 @@ def leaks(copy_root, own_syms, own_nodes, limit=200000):
         for attr, value in attrs_of(obj):
             if obj is copy_root and attr == "_parent":
                 continue
+            if attr in skip:
+                continue
             for t in targets(value):
                 p = f"{path}.{attr}>{type(t).__name__}"
-                if id(t) in own_syms:
+                if (id(t) in own_syms or id(t) in own_nodes) and (only is None or attr in only):
                     return p, t
-                if id(t) in own_nodes:
-                    return p, t
+                if id(t) in own_syms or id(t) in own_nodes:
+                    continue
                 if id(t) not in seen:
                     seen.add(id(t))
                     # keep paths short: they are only for the report
